@@ -31,10 +31,14 @@ class Dispatcher:
         self.hooks = hooks
         self.registry = dict(hooks.union_registry_items())
         self.class_hooks = hooks.class_hooks()
+        self._pred_cache: dict = {}
 
     def handler(self, ty):
         """-> ('hook', Registration) | ('optional', inner) | ('native', [classes ordered]) |
               ('unsupported', reason) for a union type;  non-union types -> ('plain', ty)."""
+        ph = self._predicate_hook(ty)
+        if ph is not None and not (ty[0] != "union" and ty in self.class_hooks):
+            return ("hook", ph)
         if ty[0] != "union":
             if ty in self.class_hooks:
                 return ("hook", self.class_hooks[ty])
@@ -51,6 +55,40 @@ class Dispatcher:
         bad = sorted(show(m) for m in ms if m != NONE and m[0] != "cls")
         return ("unsupported", "no structure hook is registered for this union and it is not a union "
                                f"of attrs classes (non-class members: {', '.join(bad)})")
+
+    def _predicate_hook(self, ty):
+        """Function-dispatch hooks registered with register_structure_hook_func: checked (most recent first)
+        before the union registry, Optional and the native union handler (axiom A1)."""
+        preds = getattr(self.hooks, "predicate_hooks", None)
+        if not preds:
+            return None
+        key = ("pred", ty)
+        if key in self._pred_cache:
+            return self._pred_cache[key]
+        from .hooks import TyVal, Registration
+        from .microeval import Raised
+        it = self.hooks.fold_interp
+        val = self.hooks.fold_from_ty(ty)
+        if ty[0] == "union":
+            # typing's argument order for this spelling is not known here; predicates must not depend on it
+            val = TyVal(ty, sorted(ty[1], key=repr))
+        res = None
+        for pred, hook, fn_name, conv_name in reversed(preds):
+            try:
+                r = it.apply(pred, [val], {})
+            except Raised:
+                r = False      # cattrs ignores predicates that raise
+            if not isinstance(r, bool):
+                r = bool(r)
+            if r:
+                node = hook.node
+                reg = Registration(ty, [ty], node, getattr(node, "name", "<lambda>"), "<predicate>", node.lineno,
+                                   fn_name, conv_name, show(ty))
+                reg.closure = hook
+                res = reg
+                break
+        self._pred_cache[key] = res
+        return res
 
     def handler_kind(self, ty) -> str:
         h = self.handler(ty)
@@ -321,12 +359,16 @@ BOTH = object()
 class HookEval:
     """Evaluates one hook (FunctionDef / Lambda / synthetic decision list) on one alternative."""
 
-    def __init__(self, shapes: Shapes, hooks: HooksModule, fn, conv_name: str, rel: str):
+    def __init__(self, shapes: Shapes, hooks: HooksModule, fn, conv_name: str, rel: str, closure=None):
         self.sh = shapes
         self.hooks = hooks
         self.fn = fn
         self.conv = conv_name
         self.rel = rel
+        # the evaluator closure of the hook (present when registrations were extracted by folding): gives the
+        # values of the free variables of the hook at registration time (late-bound loop variables, local tables,
+        # helper functions)
+        self.closure = closure
         self.probes: list[tuple[tuple, str]] = []   # (path, key) probed
         self.iterated_mapping: list[str] = []
         self.imprecise = False      # a test was approximated as "either outcome" (whole-value test)
@@ -339,15 +381,50 @@ class HookEval:
             self.param = "object_"
             self.tparam = "_"
         self.locals: dict[str, tuple] = {}
+        self._inline_depth = 0
 
     @property
     def name(self):
         return getattr(self.fn, "name", "<lambda>")
 
+    # ---------------------------------------------------------------- free variables of the hook
+    _NOVALUE = object()
+
+    def free_value(self, name: str):
+        """Value of a free variable of the hook in its evaluator closure, or _NOVALUE."""
+        c = self.closure
+        if c is None:
+            return self._NOVALUE
+        e = c.env
+        while e is not None:
+            if name in e:
+                return e[name]
+            e = e.get("__parent__")
+        g = getattr(c.interp, "globals", {})
+        return g.get(name, self._NOVALUE)
+
+    def helper_fn(self, name: str):
+        """A helper function visible from the hook: FunctionDef or None."""
+        v = self.free_value(name)
+        if v is not self._NOVALUE and hasattr(v, "node") and isinstance(v.node, ast.FunctionDef):
+            return v.node
+        for fns in self.hooks.local_fns.values():
+            if name in fns:
+                return fns[name]
+        return self.hooks.functions.get(name)
+
     # ---------------------------------------------------------------- type lookup for leaves
     def target_type(self, node):
-        ty, _ = parse_type(node, f"{self.rel}:{node.lineno} structure target", self.hooks._mk_lookup({}))
-        return self.sh.types.resolve(ty)
+        try:
+            ty, _ = parse_type(node, f"{self.rel}:{node.lineno} structure target", self.hooks._mk_lookup({}))
+            return self.sh.types.resolve(ty)
+        except AnalysisError:
+            if isinstance(node, ast.Name):
+                v = self.free_value(node.id)
+                if v is not self._NOVALUE:
+                    from .hooks import value_to_ty
+                    return self.sh.types.resolve(value_to_ty(self.sh.types, v).ty)
+            raise
 
     # ---------------------------------------------------------------- access paths
     def path_of(self, node, extra: dict | None = None):
@@ -632,33 +709,43 @@ class HookEval:
                             f"{ast.unparse(node)}")
 
     def _whole_value_ops(self, node, w, extra):
+        """Uses, inside a test, of a mapping-valued path *as a whole* (anything but: base of a ["k"] / .get("k")
+        access, right operand of `"k" in`, operand of `is None`, first argument of isinstance)."""
+        parents = {}
+        for pnode in ast.walk(node):
+            for c in ast.iter_child_nodes(pnode):
+                parents[c] = pnode
         out = []
         for n in ast.walk(node):
-            target = None
-            what = None
-            if isinstance(n, ast.Call) and dotted(n.func) in ("set", "list", "dict", "sorted", "len", "tuple", "frozenset",
-                                                              "any", "all", "sum", "iter", "next") and n.args:
-                target, what = n.args[0], f"{dotted(n.func)}()"
-            elif isinstance(n, ast.Call) and isinstance(n.func, ast.Attribute) and n.func.attr in ("keys", "items", "values"):
-                target, what = n.func.value, f".{n.func.attr}()"
-            elif isinstance(n, (ast.comprehension,)):
-                target, what = n.iter, "iteration"
-            if target is None:
+            if not isinstance(n, (ast.Name, ast.Subscript, ast.Call)):
                 continue
-            p = self.path_of(target, extra)
+            p = self.path_of(n, extra)
             if p is None:
+                continue
+            par = parents.get(n)
+            # skip sub-expressions of a longer path
+            if isinstance(par, ast.Subscript) and par.value is n:
+                continue
+            if isinstance(par, ast.Attribute) and par.attr == "get" and par.value is n:
+                continue
+            if isinstance(par, ast.Compare):
+                if len(par.ops) == 1 and isinstance(par.ops[0], (ast.In, ast.NotIn)) and par.comparators[0] is n \
+                        and isinstance(par.left, ast.Constant):
+                    continue
+                if len(par.ops) == 1 and isinstance(par.ops[0], (ast.Is, ast.IsNot)):
+                    continue
+                if par.left is n and all(isinstance(c, ast.Constant) for c in par.comparators):
+                    continue
+            if isinstance(par, ast.Call) and dotted(par.func) == "isinstance" and par.args and par.args[0] is n:
                 continue
             try:
                 v = self.value_at(w, p)
             except Fork:
                 raise
             if v[0] in ("cls", "map", "opaque") or (v[0] == "prim" and v[1] == "any"):
-                out.append(f"{what} applied to the mapping {ast.unparse(target)} at line {getattr(n, 'lineno', '?')} "
-                           f"(`{ast.unparse(node)[:60]}`)")
+                how = ast.unparse(par)[:50] if par is not None else ast.unparse(n)
+                out.append(f"the mapping {ast.unparse(n)} is used as a whole in `{how}` at line {getattr(n, 'lineno', '?')}")
         return out
-
-    def _fork_bool(self):
-        return BOTH
 
     def _quantified(self, node, w: World, extra):
         """any(<test on item> for item in X) / all(...): decided from the set of truth values the test can
@@ -829,7 +916,7 @@ class HookEval:
             return Leaf("fallthrough", node=fn)
         return r
 
-    def _exec_block(self, body, w):
+    def _exec_block(self, body, w, extra=None):
         for st in body:
             if isinstance(st, ast.Expr) and isinstance(st.value, ast.Constant):
                 continue
@@ -838,26 +925,26 @@ class HookEval:
             if isinstance(st, ast.Return):
                 if st.value is None:
                     return Leaf("none", node=st)
-                return self._leaf(st.value, w)
+                return self._leaf(st.value, w, extra)
             if isinstance(st, ast.Raise):
                 return Leaf("raise", node=st, what=ast.unparse(st)[:60])
             if isinstance(st, ast.Assert):
-                r = self._decide(st.test, w)
+                r = self._decide(st.test, w, extra)
                 if isinstance(r, tuple):
                     return Leaf("error", node=st, what=r[1])
                 if r is False:
                     return Leaf("raise", node=st, what="assertion fails")
                 continue
             if isinstance(st, ast.If):
-                r = self._decide(st.test, w)
+                r = self._decide(st.test, w, extra)
                 if isinstance(r, tuple):
                     return Leaf("error", node=st, what=r[1])
-                res = self._exec_block(st.body if r else st.orelse, w)
+                res = self._exec_block(st.body if r else st.orelse, w, extra)
                 if res is not None:
                     return res
                 continue
             if isinstance(st, ast.Assign) and len(st.targets) == 1 and isinstance(st.targets[0], ast.Name):
-                p = self.path_of(st.value)
+                p = self.path_of(st.value, extra)
                 if p is not None:
                     self.locals[st.targets[0].id] = p
                     continue
@@ -897,6 +984,50 @@ class HookEval:
                 return Leaf("structure", node=node, path=p, ty=self.target_type(node.args[1]))
             if d and d.endswith(".structure") and d != f"{self.conv}.structure":
                 return Leaf("foreign_converter", node=node, what=d)
+            # helper function of the package applied to a path: inline it
+            if isinstance(node.func, ast.Name) and len(node.args) == 1 and not node.keywords:
+                hp = self.path_of(node.args[0], extra)
+                hf = self.helper_fn(node.func.id) if hp is not None else None
+                if hf is not None and len(hf.args.args) == 1 and self._inline_depth < 4:
+                    self._inline_depth += 1
+                    try:
+                        r = self._exec_block(hf.body, w, {**extra, hf.args.args[0].arg: hp})
+                    finally:
+                        self._inline_depth -= 1
+                    return r if r is not None else Leaf("fallthrough", node=hf)
+            # direct construction:  C(**path)  /  E(path)
+            splat = [k for k in node.keywords if k.arg is None]
+            if len(splat) == 1 and not node.args and len(node.keywords) == 1:
+                sp = self.path_of(splat[0].value, extra)
+                if sp is not None:
+                    try:
+                        cty = self.target_type(node.func)
+                    except AnalysisError:
+                        cty = None
+                    if cty is not None and cty[0] == "cls":
+                        return Leaf("construct", node=node, path=sp, ty=cty)
+            if len(node.args) == 1 and not node.keywords:
+                ap = self.path_of(node.args[0], extra)
+                if ap is not None:
+                    try:
+                        cty = self.target_type(node.func)
+                    except AnalysisError:
+                        cty = None
+                    if cty is not None and cty[0] == "enum":
+                        # E(value): exactly what cattrs does for an enum position
+                        return Leaf("structure", node=node, path=ap, ty=cty)
+            # lookup in a table built at registration time:  TABLE.get(path)
+            if isinstance(node.func, ast.Attribute) and node.func.attr == "get" and isinstance(node.func.value, ast.Name) \
+                    and len(node.args) in (1, 2):
+                lp = self.path_of(node.args[0], extra)
+                tv = self.free_value(node.func.value.id)
+                if lp is not None and isinstance(tv, dict):
+                    return Leaf("lookup", node=node, path=lp, table=tv, strict=False, name=node.func.value.id)
+        if isinstance(node, ast.Subscript) and isinstance(node.value, ast.Name):
+            tv = self.free_value(node.value.id)
+            lp = self.path_of(node.slice, extra)
+            if lp is not None and isinstance(tv, dict):
+                return Leaf("lookup", node=node, path=lp, table=tv, strict=True, name=node.value.id)
         if isinstance(node, (ast.List, ast.Tuple)):
             if not node.elts:
                 return Leaf("empty", node=node, tuple=isinstance(node, ast.Tuple))
